@@ -293,7 +293,7 @@ func ruleHdrDecoder(c *Ctx, r *RuleResult, fnName string) {
 	fn := c.Fn(fnName)
 	expect := map[string]int64{
 		"(s[0]-63)<<0": 1,
-		"(s[1]-63)<<12 + (s[2]-63)<<6 + (s[3]-63)<<0":                                               4,
+		"(s[1]-63)<<12 + (s[2]-63)<<6 + (s[3]-63)<<0":                                                 4,
 		"(s[2]-63)<<30 + (s[3]-63)<<24 + (s[4]-63)<<18 + (s[5]-63)<<12 + (s[6]-63)<<6 + (s[7]-63)<<0": 8,
 	}
 	// a header form: the value of n and the number of header bytes that goes with it
